@@ -82,6 +82,19 @@ func interpFieldWrites(c *Ctx) map[string][]fieldWrite {
 			case *ssa.Store:
 				if f, x := fieldOfAddr(in.Addr); f != nil && isInterp(x.Type()) {
 					addw(f.Name(), fn, "store", in.Pos(), in.Val)
+					// a component struct stored as a whole: every field of it is stored (with its zero value when the
+					// component's zero value is stored)
+					if names, _, zeroed := interpFieldStores(in); len(names) > 1 {
+						for _, nm := range names[1:] {
+							var v ssa.Value = in.Val
+							if zeroed {
+								v = ssa.NewConst(nil, types.Typ[types.UntypedNil])
+							} else if fv := componentFieldValue(in.Val, nm, 0); fv != nil {
+								v = fv // what the constructor (or the literal) puts into this field
+							}
+							addw(nm, fn, "store", in.Pos(), v)
+						}
+					}
 				} else if n, content := rootField(in.Addr, 0); n != "" {
 					k := "nested-store"
 					if content {
@@ -481,10 +494,23 @@ func ruleReset(c *Ctx) {
 		}
 	}
 
+	stackByRole, _ := valueStackFields(c)
 	names := make([]string, 0, st.NumFields())
-	for i := 0; i < st.NumFields(); i++ {
-		names = append(names, st.Field(i).Name())
+	fieldPos := map[string]token.Pos{}
+	var addFields func(s *types.Struct, depth int)
+	addFields = func(s *types.Struct, depth int) {
+		for i := 0; i < s.NumFields(); i++ {
+			f := s.Field(i)
+			// the fields of a component struct of the interpreter (ssahelp.go isInterp) are fields of the interpreter
+			if inner, ok := f.Type().Underlying().(*types.Struct); ok && isInterp(f.Type()) && depth < 3 {
+				addFields(inner, depth+1)
+				continue
+			}
+			names = append(names, f.Name())
+			fieldPos[f.Name()] = f.Pos()
+		}
 	}
+	addFields(st, 0)
 	sort.Strings(names)
 	nDirty := 0
 	dirtOf := map[string][]fieldWrite{}
@@ -601,7 +627,7 @@ func ruleReset(c *Ctx) {
 		dirt := dirtOf[f]
 		key := "field:" + f
 		if len(dirt) == 0 {
-			c.trivial(key, st.Field(indexOfField(st, f)).Pos(), "never written outside construction/reset functions")
+			c.trivial(key, fieldPos[f], "never written outside construction/reset functions")
 			continue
 		}
 		nDirty++
@@ -628,6 +654,10 @@ func ruleReset(c *Ctx) {
 			c.ok(key, pos, "class ctx: assigned by ExecuteContext before executeAll; only read when checkCtx is true (R-CTX); dirtied by %s", whoS)
 		case resetScratch[f] != "":
 			c.ok(key, pos, "class scratch: %s; dirtied by %s", resetScratch[f], whoS)
+		case stackByRole != nil && f == stackByRole.Name():
+			// the value stack under whatever name and in whatever struct it lives (found by role: the []value indexed
+			// through the stack pointer)
+			c.ok(key, pos, "class scratch: %s; dirtied by %s", resetScratch["stack"], whoS)
 		case vars[f]:
 			c.bad(key, pos, "field %s is reset only by resetVars but is not program-variable storage: without ResetVars it carries over from one Execute to the next (dirtied by %s)", f, whoS)
 		default:
@@ -698,8 +728,10 @@ func mustStoreBeforeCallD(fn *ssa.Function, callee string, depth int) map[string
 				fact = map[string]bool{}
 			}
 			for _, prev := range b.Instrs[:i] {
-				if n, _ := interpFieldStore(prev); n != "" {
-					fact[n] = true
+				if ns, _, _ := interpFieldStores(prev); len(ns) > 0 {
+					for _, n := range ns {
+						fact[n] = true
+					}
 				}
 				if pc, ok := prev.(*ssa.Call); ok {
 					if g := pc.Call.StaticCallee(); g != nil && g.Pkg == fn.Pkg && len(g.Blocks) > 0 {
@@ -711,9 +743,22 @@ func mustStoreBeforeCallD(fn *ssa.Function, callee string, depth int) map[string
 				}
 			}
 			if via {
+				// boolean constants passed here select the branches of the helper that can run
+				saved := curParamBind
+				bind := map[*ssa.Parameter]bool{}
+				for k, v := range saved {
+					bind[k] = v
+				}
+				for ai, a := range call.Common().Args {
+					if k, ok := a.(*ssa.Const); ok && k.Value != nil && k.Value.Kind() == constant.Bool && ai < len(cal.Params) {
+						bind[cal.Params[ai]] = constant.BoolVal(k.Value)
+					}
+				}
+				curParamBind = bind
 				for k := range mustStoreBeforeCallD(cal, callee, depth+1) {
 					fact[k] = true
 				}
+				curParamBind = saved
 			}
 			if result == nil {
 				result = fact
@@ -877,4 +922,76 @@ func constName(info *types.Info, e ast.Expr) string {
 		return constName(info, x.X)
 	}
 	return ""
+}
+
+// componentFieldValue: v is a struct value built by a composite literal (a load of a local that was filled field by
+// field) or returned by a constructor function of the package that builds it that way: the value put into the field
+// named name; a nil constant when the literal leaves the field out (zero value); nil when the value is not of that form.
+func componentFieldValue(v ssa.Value, name string, depth int) ssa.Value {
+	if depth > 3 {
+		return nil
+	}
+	switch x := v.(type) {
+	case *ssa.UnOp:
+		if x.Op != token.MUL {
+			return nil
+		}
+		al, ok := x.X.(*ssa.Alloc)
+		if !ok || al.Referrers() == nil {
+			return nil
+		}
+		st, ok := deref(al.Type()).Underlying().(*types.Struct)
+		if !ok {
+			return nil
+		}
+		has := false
+		for i := 0; i < st.NumFields(); i++ {
+			if st.Field(i).Name() == name {
+				has = true
+			}
+		}
+		if !has {
+			return nil
+		}
+		var found ssa.Value
+		for _, r := range *al.Referrers() {
+			fa, ok := r.(*ssa.FieldAddr)
+			if !ok || fa.Referrers() == nil {
+				continue
+			}
+			if st.Field(fa.Field).Name() != name {
+				continue
+			}
+			for _, r2 := range *fa.Referrers() {
+				if s2, ok := r2.(*ssa.Store); ok && s2.Addr == ssa.Value(fa) {
+					found = s2.Val
+				}
+			}
+		}
+		if found == nil {
+			return ssa.NewConst(nil, types.Typ[types.UntypedNil])
+		}
+		return found
+	case *ssa.Call:
+		g := x.Call.StaticCallee()
+		if g == nil || len(g.Blocks) == 0 {
+			return nil
+		}
+		var res ssa.Value
+		n := 0
+		for _, b := range g.Blocks {
+			if len(b.Instrs) == 0 {
+				continue
+			}
+			if ret, ok := b.Instrs[len(b.Instrs)-1].(*ssa.Return); ok && len(ret.Results) == 1 {
+				n++
+				res = ret.Results[0]
+			}
+		}
+		if n != 1 {
+			return nil
+		}
+		return componentFieldValue(res, name, depth+1)
+	}
+	return nil
 }
